@@ -3,7 +3,7 @@
 // under hook-injected schedule noise and records what the harness' own handlers and sinks observe.
 // No oracle logic: every line of the output file is an observation; vlib/hist_conc.py decides.
 //
-//   drv_conc c02 <out> <target:logger|bare> <producers> <msgs> <sinkprofile> <noise> <cores> <seed>
+//   drv_conc c02 <out> <target:logger|bare> <producers> <msgs> <sinkprofile> <noise> <cores> <seed> [<mode switches>]
 //   drv_conc c03 <out> <target:logger|bare> <producers> <msgs> <sinkprofile> <noise> <cores> <seed> <burst>
 #include <atomic>
 #include <chrono>
@@ -252,12 +252,40 @@ int runC02(int argc, char **argv)
     const unsigned long long seed = strtoull(argv[9], nullptr, 10);
     setAffinity(cores);
 
-    OwnThreadHandler<Pipeline> bare; // synchronous: never moved to a thread
+    const int switches = argc > 10 ? atoi(argv[10]) : 0;
+    // with mode switches the logger needs an application object (the own thread's event delivery depends on it)
+    QCoreApplication *app = switches > 0 ? new QCoreApplication(argc, argv) : nullptr;
+    (void)app;
+    OwnThreadHandler<Pipeline> bare; // synchronous unless the switcher moves it
     if (target == "logger") {
         buildC02(gQtLogger, profile);
         gQtLogger.installMessageHandler();
     } else {
         buildC02(bare, profile);
+    }
+    std::atomic<bool> producing { true };
+    std::thread switcher;
+    if (switches > 0) {
+        // the logger changes between synchronous and asynchronous mode while the producers log: the pipeline must stay exclusive,
+        // exactly-once and ordered across every switch
+        switcher = std::thread([&]() {
+            std::mt19937_64 rng(seed * 31ULL + 7);
+            for (int c = 0; c < switches && producing.load(); ++c) {
+                spinUs(long(rng() % 3000));
+                rec('M', c, ticket());
+                if (target == "logger")
+                    gQtLogger.moveToOwnThread();
+                else
+                    bare.moveToOwnThread();
+                spinUs(long(rng() % 3000));
+                rec('N', c, ticket());
+                if (target == "logger")
+                    gQtLogger.resetOwnThread();
+                else
+                    bare.resetOwnThread();
+                rec('O', c, ticket());
+            }
+        });
     }
     std::atomic<int> ready { 0 };
     std::vector<std::thread> th;
@@ -296,6 +324,14 @@ int runC02(int argc, char **argv)
         });
     }
     for (auto &t : th) t.join();
+    producing = false;
+    if (switcher.joinable()) switcher.join();
+    if (switches > 0) {
+        if (target == "logger")
+            gQtLogger.resetOwnThread();
+        else
+            bare.resetOwnThread();
+    }
     dump(out);
     return 0;
 }
